@@ -36,6 +36,7 @@ FIELDS = [
     ("Q_dom", A(NameS, BoolS)),
     ("Q_len", A(NameS, IntS)),
     ("Q_at", A(NameS, A(IntS, NameS))),
+    ("Q_mem", A(NameS, A(NameS, BoolS))),  # ghost: membership view of the list (n ∈ quantity_types[q])
     # categories
     ("C_dom", A(NameS, BoolS)),
     ("C_qt", A(NameS, NameS)),
@@ -69,6 +70,9 @@ class Reg:
             setattr(self, n, z3.Const("%s!%s" % (tag, n), s))
         self.writes = []  # (field group, key, description)
         self.instantiated = set()
+        # the invariants are facts about the state the function is *entered* with (they need not
+        # hold between two writes of a mutator): instances are always taken on this snapshot
+        self.pre = {n: getattr(self, n) for n, _ in FIELDS}
 
     def snapshot(self):
         return {n: getattr(self, n) for n, _ in FIELDS}
@@ -88,7 +92,7 @@ class Reg:
         if k in self.instantiated:
             return
         self.instantiated.add(k)
-        f = getattr(self, "inv_" + name)(*keys)
+        f = getattr(self, "inv_" + name)(*keys, st=self.pre)
         if f is not None:
             self.P.assume(f, "inv:%s" % name)
 
@@ -119,6 +123,13 @@ class Reg:
             z3.And(z3.Select(st["Q_dom"], q), i >= 0, i < z3.Select(st["Q_len"], q)),
             z3.And(z3.Select(st["U_dom"], u), z3.Select(st["U_qt"], u) == q, z3.Select(st["U_pos"], u) == i),
         )
+
+    def inv_W1c(self, q, n, st=None):
+        """membership view: n is listed under q  ⇔  n is registered with quantity type q"""
+        if "W1" not in self.inv:
+            return None
+        st = st or self.snapshot()
+        return z3.Select(z3.Select(st["Q_mem"], q), n) == z3.And(z3.Select(st["Q_dom"], q), z3.Select(st["U_dom"], n), z3.Select(st["U_qt"], n) == q)
 
     def inv_W2(self, q, st=None):
         """a quantity type has a first-listed unit whose conversions are identities"""
@@ -212,6 +223,7 @@ class Reg:
         self.inst("F1", u)
         q = z3.Select(self.U_qt, u)
         self.inst("Qlen", q)
+        self.inst("W1c", q, u)
 
     def on_qt(self, q):
         self.inst("W2", q)
@@ -471,6 +483,7 @@ class RegQ(RegView):
                     raise OutOfSubset("setdefault default is not an empty list")
                 R.Q_dom = z3.Store(R.Q_dom, n, z3.BoolVal(True))
                 R.Q_len = z3.Store(R.Q_len, n, z3.IntVal(0))
+                R.Q_mem = z3.Store(R.Q_mem, n, z3.K(NameS, z3.BoolVal(False)))
                 R.writes.append(("Q", n))
                 return RegQList(R, n)
 
@@ -585,7 +598,10 @@ class RegQList(RegView):
         if c != -1:
             raise OutOfSubset("del registry list at index other than -1")
         if I.P.branch(n >= 1):
+            last = z3.Select(z3.Select(R.Q_at, self.qt), n - 1)
             R.Q_len = z3.Store(R.Q_len, self.qt, n - 1)
+            # no duplicates (W1): removing the last element removes its symbol from the membership view
+            R.Q_mem = z3.Store(R.Q_mem, self.qt, z3.Store(z3.Select(R.Q_mem, self.qt), last, z3.BoolVal(False)))
             R.writes.append(("Q", self.qt))
             return
         I.raise_("IndexError", "list assignment index out of range")
@@ -606,8 +622,14 @@ class RegQList(RegView):
             raise OutOfSubset("loop over a registry list at line %d has no applicable rule" % st.lineno)
         return True
 
-    def comp_map(self, I, elt_fn_name):
-        raise OutOfSubset("comprehension over registry list")
+    def comp_view(self, I, n, frame):
+        """[x.unit for x in quantity_types[qt]] : the (fresh) list of the type's unit symbols"""
+        g = n.generators[0]
+        if len(n.generators) == 1 and not g.ifs and isinstance(g.target, ast.Name) and isinstance(n.elt, ast.Attribute) and isinstance(n.elt.value, ast.Name) and n.elt.value.id == g.target.id and n.elt.attr in ("unit", "name"):
+            if n.elt.attr == "unit":
+                return RegUnitList(self.reg, self.qt)
+            return OpaqueSeq("unit names of a quantity type")
+        raise OutOfSubset("comprehension over a registry list (line %d)" % n.lineno)
 
     def py_iter(self, I):
         raise OutOfSubset("iteration over a registry list without a loop rule")
@@ -628,6 +650,7 @@ class RegQList(RegView):
                 n = z3.Select(R.Q_len, qt)
                 R.Q_at = z3.Store(R.Q_at, qt, z3.Store(z3.Select(R.Q_at, qt), n, key))
                 R.Q_len = z3.Store(R.Q_len, qt, n + 1)
+                R.Q_mem = z3.Store(R.Q_mem, qt, z3.Store(z3.Select(R.Q_mem, qt), key, z3.BoolVal(True)))
                 R.U_pos = z3.Store(R.U_pos, key, n)
                 R.writes.append(("Q", qt))
                 return SNone
@@ -647,6 +670,7 @@ class RegQList(RegView):
                 new = z3.Lambda([j], z3.If(j == 0, key, z3.Select(old, j - 1)))
                 R.Q_at = z3.Store(R.Q_at, qt, new)
                 R.Q_len = z3.Store(R.Q_len, qt, n + 1)
+                R.Q_mem = z3.Store(R.Q_mem, qt, z3.Store(z3.Select(R.Q_mem, qt), key, z3.BoolVal(True)))
                 # ghost positions: everything of this quantity type shifts by one
                 u = z3.Const("u!ins", NameS)
                 oldpos = R.U_pos
@@ -667,6 +691,85 @@ class RegQList(RegView):
 
             return SBuiltin("RegQList.insert", insert)
         raise OutOfSubset("registry list .%s" % name)
+
+
+class RegUnitList(SProto):
+    """the list [info.unit for info in quantity_types[qt]] as built at one moment (a fresh list):
+    membership = 'registered with this quantity type' (W1), element 0 = the base unit; appended
+    items are remembered (the list belongs to the caller)"""
+
+    pytype_name = "list"
+    region = "fresh"
+
+    def __init__(self, reg, qt, extras=None, st=None, kind="list"):
+        self.reg = reg
+        self.qt = qt
+        self.extras = list(extras or [])
+        self.st = st or reg.snapshot()
+        self.kind = kind
+
+    def pytype(self):
+        return self.kind
+
+    def py_is(self, I, other):
+        return other is self
+
+    def py_len(self, I):
+        return SNum(z3.Select(self.st["Q_len"], self.qt) + len(self.extras), "int")
+
+    def py_truth(self, I):
+        return z3.Select(self.st["Q_len"], self.qt) + len(self.extras) > 0
+
+    def member(self, n):
+        st = self.st
+        alts = [z3.Select(z3.Select(st["Q_mem"], self.qt), n)] + [n == e for e in self.extras]
+        return z3.Or(*alts)
+
+    def py_contains(self, I, x):
+        n = name_of(I, x)
+        if n is None:
+            return False
+        self.reg.inst("W1a", n)
+        self.reg.inst("W1c", self.qt, n)
+        return self.member(n)
+
+    def py_getitem(self, I, k):
+        if not isinstance(k, SNum):
+            raise OutOfSubset("slice of a unit list")
+        c = k.concrete()
+        st = self.st
+        n = z3.Select(st["Q_len"], self.qt)
+        if c == 0:
+            if I.P.branch(n > 0):
+                self.reg.inst("W1b", self.qt, z3.IntVal(0))
+                return sname(z3.Select(z3.Select(st["Q_at"], self.qt), 0))
+            if self.extras:
+                return sname(self.extras[0])
+            I.raise_("IndexError", "list index out of range")
+        raise OutOfSubset("unit list index other than 0")
+
+    def to_set(self, I):
+        return RegUnitList(self.reg, self.qt, self.extras, self.st, kind="set")
+
+    def py_copy(self, I, deep):
+        return RegUnitList(self.reg, self.qt, self.extras, self.st, kind=self.kind)
+
+    def py_iter(self, I):
+        raise OutOfSubset("iteration over the units of a quantity type")
+
+    def py_getattr(self, I, name):
+        if name == "append" and self.kind == "list":
+            def append(I, a, k):
+                x = name_of(I, a[0])
+                if x is None:
+                    raise OutOfSubset("append non-string to a unit list")
+                self.extras.append(x)
+                return SNone
+
+            return SBuiltin("RegUnitList.append", append)
+        raise OutOfSubset("unit list .%s" % name)
+
+    opaque_sorted = True
 
 
 class RegCat(RegView):
@@ -784,12 +887,82 @@ class RegVU(RegView):
             return SBuiltin("RegVU.append", append)
         raise OutOfSubset("valid_units.%s" % name)
 
+    def py_copy(self, I, deep):
+        return RegVUCopy(self.reg, self.cat)
+
+    def to_set(self, I):
+        return RegVUSet(self.reg, self.cat)
+
+    def as_symgen(self, I):
+        """the stored units, element by element (each satisfies W3vu / F1 by the registry invariant)"""
+        from .loops import SymGen
+
+        R, c = self.reg, self.cat
+
+        def elem(i):
+            R.inst("W3vu", c, i)
+            u = z3.Select(z3.Select(R.pre["C_vu_at"], c), i)
+            R.inst("F1", u)
+            R.inst("W1c", z3.Select(R.pre["C_qt"], c), u)
+            return sname(z3.Select(z3.Select(R.C_vu_at, c), i))
+
+        return SymGen(z3.Select(R.C_vu_len, c), elem)
+
     def py_setitem(self, I, k, v):
         self.reg.writes.append(("C", "valid_units[i]="))
         raise OutOfSubset("write into a registered valid_units list")
 
     def py_iter(self, I):
         raise OutOfSubset("iteration over a registered valid_units list")
+
+
+class RegVUCopy(SProto):
+    """list(valid_units): a fresh list with the same members (plus what the owner appends)"""
+
+    pytype_name = "list"
+    region = "fresh"
+
+    def __init__(self, reg, cat, st=None, extras=None):
+        self.reg = reg
+        self.cat = cat
+        self.st = st or reg.snapshot()
+        self.extras = list(extras or [])
+
+    def pytype(self):
+        return "list"
+
+    def py_is(self, I, other):
+        return other is self
+
+    def py_len(self, I):
+        return SNum(z3.Select(self.st["C_vu_len"], self.cat) + len(self.extras), "int")
+
+    def py_truth(self, I):
+        return z3.Select(self.st["C_vu_len"], self.cat) + len(self.extras) > 0
+
+    def py_contains(self, I, x):
+        n = name_of(I, x)
+        if n is None:
+            return False
+        return z3.Or(z3.Select(z3.Select(self.st["C_vu_mem"], self.cat), n), *[n == e for e in self.extras])
+
+    def py_copy(self, I, deep):
+        return RegVUCopy(self.reg, self.cat, self.st, self.extras)
+
+    def py_iter(self, I):
+        raise OutOfSubset("iteration over a copy of valid_units")
+
+    def py_getattr(self, I, name):
+        if name == "append":
+            def append(I, a, k):
+                x = name_of(I, a[0])
+                if x is None:
+                    raise OutOfSubset("append non-string")
+                self.extras.append(x)
+                return SNone
+
+            return SBuiltin("RegVUCopy.append", append)
+        raise OutOfSubset("valid_units copy .%s" % name)
 
 
 class RegVUSet(RegView):
@@ -890,6 +1063,7 @@ def store_cat(I, R, n, v):
     R.stored_vus = f["valid_units_set"]
     if vu is SNone:
         R.C_vu_none = z3.Store(R.C_vu_none, n, z3.BoolVal(True))
+        R.C_vu_len = z3.Store(R.C_vu_len, n, z3.IntVal(0))  # ghost: no list, length 0
     else:
         R.C_vu_none = z3.Store(R.C_vu_none, n, z3.BoolVal(False))
         if isinstance(vu, RegVU):
